@@ -391,8 +391,40 @@ func oracle(c *Case, o *Obs) (fs []common.OracleFailure, obsNotes []string) {
 			complete++
 		}
 	}
-	if complete < required && c.ClientCut < 0 {
+	if complete < required {
 		fail("resp-lost", fmt.Sprintf("the origin sent %d responses that had to be delivered, the client received %d complete ones", required, complete))
+	}
+	// every request the origin received completely (and answers: the scripted origin answers each one) gets its final
+	// response, up to the first response that ends the connection
+	if c.OriginHold <= 1 {
+		need, ended := 0, false
+		for k, m := range o.Origin {
+			if !m.Complete || ended || c.FirstFwd+k >= len(c.Scripts) || (c.OriginCloseAfter >= 0 && k >= c.OriginCloseAfter) {
+				break
+			}
+			q := c.Reqs[min(f0+k, len(c.Reqs)-1)]
+			for j, r := range c.Scripts[c.FirstFwd+k].Resps {
+				final := j == len(c.Scripts[c.FirstFwd+k].Resps)-1
+				if r.Garbage != "" || (final && r.Status/100 == 3 && r.LocState == "one" && r.LocHost != "" && r.LocHost != q.Host) {
+					ended = true
+					break
+				}
+				need++
+				if final && (r.Close || r.Body.Kind == "eof" || q.Close) {
+					ended = true
+				}
+			}
+		}
+		if complete < need {
+			key := "resp-lost"
+			if len(fromOrigin) > 0 && complete == len(fromOrigin) && complete < len(seq)+1 && complete >= 1 {
+				last := fromOrigin[complete-1]
+				if statusOf(last.Line)/100 == 1 {
+					key = "N1:close-after-interim-drops-final"
+				}
+			}
+			fail(key, fmt.Sprintf("the origin received %d complete requests whose %d responses had to come back; the client received %d (last: %q)", len(o.Origin), need, complete, lastLine(fromOrigin)))
+		}
 	}
 	for n, m := range fromOrigin {
 		where := fmt.Sprintf("client response %d", n)
@@ -445,4 +477,11 @@ func oracle(c *Case, o *Obs) (fs []common.OracleFailure, obsNotes []string) {
 		}
 	}
 	return
+}
+
+func lastLine(ms []*Msg) string {
+	if len(ms) == 0 {
+		return ""
+	}
+	return ms[len(ms)-1].Line
 }
